@@ -22,12 +22,22 @@ PROPS = {
                      'SmallAsnSet union/intersection/difference/symmetric_difference beyond 2 elements per operand (Peekable state machines: rejected by Verus; bounded Kani only)',
                      'SmallAsnSet::contains (slice::binary_search internals)'],
     ),
+    'C15': dict(
+        level='proof',
+        units=[('V', 'slurm'), ('K', 'slurm')],
+        technique='contract-based deductive verification: Verus contracts on the extracted drop_origin/drop_router_key/drop_aspa/drop_payload bodies and loops (postcondition = the property statement as an exists-over-filters spec), Kani full-domain harnesses for the prefix filter with the real covers() and for KeyIdentifier equality',
+        level_text='Unbounded proof for all filter lists (any length, every present/absent combination) and all payloads that drop_payload returns true exactly when some filter of the payload kind matches; assertion->payload functions carry their fields exactly. Kani proves the leaf facts Verus assumes (covers == range inclusion, KeyIdentifier == is octet equality).',
+        level_note='Trusted: Verus/Z3, Kani/CBMC; derive(PartialEq/Clone) expansions; opaque stand-ins for Bytes-backed RouterKeyInfo/ProviderAsns. JSON round trip (serde_json) is not decided.',
+        assumed=['derive(PartialEq) is field-wise equality; derive(Clone) on Bytes newtypes preserves the octets'],
+        not_decided=['serialising a file to JSON and parsing it back gives an equal file (serde/serde_json code is outside both verifiers)',
+                     'BgpsecAssertion::to_payload and LocallyAddedAssertions::iter_payload (iterator adapters map/chain: rejected by Verus); PrefixAssertion/AspaAssertion::to_payload are proved'],
+    ),
 }
 
 _PENDING = 'contracts for this property are not built yet in this revision (work in progress; see DESIGN.md §5)'
 NOT_APPLICABLE = {
     'C01': _PENDING, 'C02': _PENDING, 'C03': _PENDING, 'C07': _PENDING, 'C09': _PENDING, 'C10': _PENDING,
-    'C12': _PENDING, 'C14': _PENDING, 'C15': _PENDING, 'C17': _PENDING,
+    'C12': _PENDING, 'C14': _PENDING, 'C17': _PENDING,
     'C04': 'quantifies over all byte strings into eleven decoders that are trees of bcder closures over bytes::Bytes (external crate); no function-level contract expresses "the whole parser returns", Verus cannot take that code and Kani does not terminate on Bytes (DESIGN.md §6)',
     'C05': 'built-object vs decoded-object agreement is a statement about the symmetry of bcder encoders and decoders across ten object types; not a per-function property of code within reach of Verus/Kani (DESIGN.md §6)',
     'C06': 'whole-history property of an async client/server exchange; contracts over one call cannot state "after any completed exchange", and neither tool has a scheduler model that survives tokio (DESIGN.md §6)',
